@@ -24,6 +24,10 @@ def run(ctx):
     naive = common.run_tlc(work, "LazyBody", cfg="MC_LazyBody_naive.cfg", workers=2, timeout=600)
     if not naive["invariant"]:
         raise common.Inconclusive("the unsynchronised LazyBody variant is not rejected: the model's invariants are vacuous")
+    # the same three invariants for ANY set of callers: a TLAPS proof (inductive invariant + PTL step) over impl/LazyBody
+    pr = common.run_tlapm(work, "LazyBodyProof", timeout=900)
+    if not pr["ok"]:
+        raise common.Inconclusive("the TLAPS proof of the Once protocol no longer checks (%d of %d obligations): the model or the proof was changed" % (pr["proved"], pr["obligations"]))
     obs = os.path.join(ctx.tmp, "c12.ndjson")
     n = 150 if ctx.quick else 1500
     ctx.run_vh(["c12", "--out", obs, "--seed", ctx.seed, "--n", n, "--parts", "alias"], timeout=2400)
@@ -62,7 +66,9 @@ def run(ctx):
     steps = {json.loads(l)["step"] for l in lines if '"alias"' in l}
     ctx.cov.update(states=mc["distinct"] + res["states"], transitions=mc["generated"], traces_validated_against_impl=nconc,
                    model=dict(module="impl/LazyBody", callers=4, distinct_states=mc["distinct"], invariants="AtMostOnce NoTornRead SameForAll", liveness="AllReturn",
-                              unsynchronised_variant="violates %s" % naive["invariant"]),
+                              unsynchronised_variant="violates %s" % naive["invariant"],
+                              tlaps_proof=dict(module="proof/LazyBodyProof", theorem="Spec => [](AtMostOnce /\\ NoTornRead /\\ SameForAll) for any set of callers",
+                                               obligations=pr["obligations"], discharged=pr["proved"])),
                    evaluations=nalias + nconc, distinct_nontrivial=nalias + nconc,
                    rule="one evaluation = one caller-side mutation bracketed by two full observations, or one 12-goroutine first-observation burst; "
                         "distinct = distinct (subject, mutation step)",
